@@ -71,6 +71,7 @@ def fuels(tier):
                 for po in (0.0, 0.25)]
     for pu, zr, po in grid:
         out.append({'fuel': 'metal', 'pu': pu, 'zr': zr, 'por': po, 'profile': 'uniform'})
+    out.append({'fuel': 'metal', 'pu': 0.2, 'zr': 0.1, 'por': 0.3, 'profile': 'por-graded'})
     if tier != 'quick':
         # restructured pellet: porosity / Zr redistributed over the zones
         out.append({'fuel': 'metal', 'pu': 0.2, 'zr': 0.1, 'por': 0.2, 'profile': 'graded'})
@@ -105,6 +106,15 @@ def cases_a(tier):
                                  'powers': POWERS, 'env': env, 'chain': chain}
                             c.update(f)
                             out.append(c)
+    # the same pins entered in other length units (gap and pin dimensions go through the reader's conversion)
+    for unit in (('in', 'mm') if tier == 'quick' else ('in', 'mm', 'cm', 'ft')):
+        for f in ({'fuel': 'metal', 'pu': 0.2, 'zr': 0.1, 'por': 0.25, 'profile': 'uniform'},
+                  {'fuel': 'user', 'umat': 'ffall', 'profile': 'uniform'}):
+            for gap in gaps[1:]:
+                c = {'part': 'A', 'oftf': sizes[-1], 'clad_frac': 0.06, 'gap': gap, 'zones': 2,
+                     'annular': False, 'powers': POWERS, 'env': env, 'chain': chain, 'unit': unit}
+                c.update(f)
+                out.append(c)
     return out
 
 
@@ -137,6 +147,11 @@ def _zone_lists(c):
                    for i in range(n)]
             zr = [round(c['zr'] * (0.7 + 0.6 * i / max(1, n - 1)), 6) if n > 1 else c['zr']
                   for i in range(n)]
+        elif c['profile'] == 'por-graded':
+            # only the porosity differs between the zones (same alloy everywhere)
+            por = [round(c['por'] * (1.0 - 0.8 * i / max(1, n - 1)), 6) if n > 1 else c['por']
+                   for i in range(n)]
+            zr = [c['zr']] * n
         else:
             por, zr = [c['por']] * n, [c['zr']] * n
         return {'pu': [c['pu']] * n, 'zr': zr, 'por': por}
@@ -173,6 +188,11 @@ def build_scenario(c, rings=2, pd=1.2, wire=True, q=1000.0, pins='uniform', nste
     scn = S.single(dsn, 0.045 * npin, length=nsteps_len, power=power)
     if mats:
         scn['materials'] = mats
+    if c.get('unit'):
+        # the same pin written in another length unit (harness-side conversion of vf.props.c17);
+        # the harness's own description `dsn` stays in metres
+        from . import c17
+        scn = c17.convert_scenario(scn, c['unit'], 'kelvin', 'kg/s')
     return scn, dsn
 
 
